@@ -77,6 +77,10 @@ def variants(name, f, rng, n_extra=2):
             kw['source_type'] = rng.choice(SOURCES)
         if kw:
             out.append(kw)
+    # every indicator that smooths through ma(): the common averages once each, all other knobs at their defaults
+    for mt in (1, 2, 3):
+        if mats:
+            out.append({k: mt for k in mats})
     return out
 
 
@@ -107,12 +111,29 @@ def candles(rng, n, kind='walk', base=100.0, step=60_000):
         elif kind == 'alt':
             o = p
             c = base * (1.02 if i % 2 == 0 else 0.98)
+        elif kind == 'gappy':
+            # opens away from the previous close, sometimes beyond the previous candle's whole range
+            # (gap-down: previous close above this high; gap-up: previous close below this low)
+            o = p
+            g = rng.random()
+            if g < 0.15:
+                o = p * (1 - rng.uniform(0.01, 0.04))
+            elif g < 0.30:
+                o = p * (1 + rng.uniform(0.01, 0.04))
+            c = max(o * (1 + rng.gauss(0, 0.004)), base * 1e-3)
+        elif kind == 'stall':
+            # a walk with illiquid stretches: runs of candles with open == high == low == close
+            o = p
+            if (i // 23) % 3 == 1:
+                c = p
+            else:
+                c = max(o * (1 + rng.gauss(0, 0.01)), base * 1e-3)
         elif kind == 'lattice':           # small integers: exact in floats, many ties
             o = p
             c = float(max(1, round(p + rng.choice([-2, -1, 0, 0, 1, 2]))))
         else:
             raise ValueError(kind)
-        if kind == 'flat':
+        if kind == 'flat' or (kind == 'stall' and (i // 23) % 3 == 1):
             h = l = o
         elif kind == 'lattice':
             h = max(o, c) + rng.choice([0, 0, 1])
@@ -126,7 +147,7 @@ def candles(rng, n, kind='walk', base=100.0, step=60_000):
     return np.array(rows, dtype=float).reshape(n, 6)
 
 
-KINDS = ['walk', 'trend', 'down', 'flat', 'spike', 'alt', 'lattice']
+KINDS = ['walk', 'trend', 'down', 'flat', 'spike', 'alt', 'lattice', 'gappy', 'stall']
 
 
 def source_of(c, source_type):
@@ -190,7 +211,7 @@ def as_scalar(v):
 
 
 def same(a, b, rel=1e-9, scale=1.0):
-    """NaN-aware float agreement: both NaN, both the same infinity, or |a-b| <= rel*max(scale,|a|,|b|)"""
+    """NaN-aware float agreement: both undefined (NaN / infinite), or |a-b| <= rel*max(scale,|a|,|b|)"""
     if a is None or b is None:
         return a is None and b is None
     if isinstance(a, str) or isinstance(b, str):
@@ -201,10 +222,10 @@ def same(a, b, rel=1e-9, scale=1.0):
             b = float(b)
         except (TypeError, ValueError):
             return False
-    if a != a or b != b:
-        return a != a and b != b
-    if math.isinf(a) or math.isinf(b):
-        return a == b
+    # NaN and +-inf are one class "undefined": x/0 on a flat window is NaN, +inf or -inf depending on whether the
+    # numerator's rounding residue is 0, +1e-14 or -1e-14 (e.g. zscore / cci on a run of equal prices)
+    if a != a or b != b or math.isinf(a) or math.isinf(b):
+        return (a != a or math.isinf(a)) and (b != b or math.isinf(b))
     return abs(a - b) <= rel * max(scale, abs(a), abs(b))
 
 
